@@ -1,4 +1,5 @@
 import SeliumModel.Client.KeepAlive
+import SeliumModel.Client.KeepAliveSM
 import Driver.Util
 namespace Driver.KeepAlive
 open Selium.KeepAlive Selium.Gen.KeepAlive
@@ -11,7 +12,13 @@ def outText : Outcome → String
     stream kind is the one read from the source. -/
 def run (t : List String) : String :=
   match t with
-  | ["exhaust", _, m] => outText (reconnect (nat! m) []).1
+  | ["exhaust", kind, m] =>
+    if kind = "pub" || kind = "sub" then
+      -- the pub/sub wrapper polled by a wake-driven executor (`c12_exhaustion_is_reported`)
+      match (driveUntilValue { max := nat! m } (nat! m + 3) .connected).getLast? with
+      | some .tooManyRetries => "TooManyRetries"
+      | _ => "hang"
+    else outText (reconnect (nat! m) []).1
   | ["displaced", m] =>
     -- every registration is refused, every reconnection itself succeeds: budget + 1 sessions decide
     let outs := replierLife replierBudgetPerOutage replierRefusalCountsAsAttempt (nat! m) (nat! m)
